@@ -238,7 +238,7 @@ func executeSubproc(c Case, keepTrace bool, bin string) Result {
 			return res
 		}
 		rep.crashed = died
-		tr.Add("msg %d %s %s (%d,%d) -> died=%v result=%s notifs=%s", i+1, m.Kind, m.URI, m.Line, m.Char, died, core.Truncate(canonJSON(rep.result), 300), core.Truncate(notifCanon(rep.notifs), 300))
+		tr.Add("msg %d %s %s (%d,%d) -> died=%v result=%s notifs=%s", i+1, m.Kind, m.URI, m.Line, m.Char, died, core.Truncate(answerCanon(m.Kind, rep.result), 300), core.Truncate(notifCanon(rep.notifs), 300))
 		if v := checkReplySub(bin, m, rep, latest, updates, &res); v != nil || res.HarnessErr != "" {
 			if v != nil {
 				v.Detail = fmt.Sprintf("[real binary] message %d of %d: %s", i+1, len(c.Msgs), v.Detail)
